@@ -26,6 +26,7 @@ type Case struct {
 	K     string    `json:"k"`
 	Entry string    `json:"entry"`
 	Inp   []int     `json:"inp"`
+	Inp2  []int     `json:"inp2"`
 	M     string    `json:"m"`
 	Mand  []rm.Slot `json:"mand"`
 	Opt   []rm.Slot `json:"opt"`
@@ -244,6 +245,9 @@ func runRT(c Case) RT {
 			cp := append([]byte{}, out...)
 			derr := m2.PlainNasDecode(&cp)
 			e.DecOk = derr == nil
+			for i := range cp { // the caller reuses its receive buffer: the decoded message must not notice
+				cp[i] = ^cp[i]
+			}
 			if e.DecOk {
 				e.D = rm.Project(m2)
 			}
@@ -480,6 +484,20 @@ func execCase(c Case, rng *rand.Rand, emit func(interface{})) {
 		} else {
 			emit(runDec(c.Entry, inp, c.Big, c.M, true))
 		}
+	case "dec2": // object reuse: Inp2 is decoded into the same nas.Message right after Inp; the event describes the second decode
+		m := nas.NewMessage()
+		first := ev.Bytes(c.Inp)
+		ev.Guard(func() { _ = decodeEntry(m, c.Entry, &first) })
+		e := Dec{Op: "Dec", Entry: c.Entry, N: len(c.Inp2), Inp: c.Inp2, Proj: rm.EmptyProj()}
+		second := ev.Bytes(c.Inp2)
+		var err error
+		pi := ev.Guard(func() { err = decodeEntry(m, c.Entry, &second) })
+		if pi != nil {
+			e.Panic, e.Pfn = true, pi.Fn+": "+pi.Kind
+		} else if e.Ok = err == nil; e.Ok {
+			e.Proj = rm.Project(m)
+		}
+		emit(e)
 	case "rt":
 		emit(runRT(c))
 	case "re":
